@@ -61,8 +61,8 @@ func (e *netErr) Temporary() bool { return false }
 func (e *netErr) Unwrap() error   { return e.inner }
 
 type catEntry struct {
-	name                       string
-	mk                         func() error
+	name                      string
+	mk                        func() error
 	net, timeout, eof, cancel bool
 }
 
